@@ -149,7 +149,10 @@ def job(jc, spec):
         try:
             meth = javamini.parse_method(src)
         except (SyntaxError, IndexError, KeyError, ValueError) as e:
-            jc.concrete_violation(dict(w, args=None, kind='parse'), label=label, what='printed method cannot be parsed (%s)' % e)
+            import re as _re
+            decl = _re.search(r'\((?:int|long|byte|short|char|boolean) v\d', src) is not None
+            jc.add_witness('c21_decl_in_expr' if (decl and 'c21_decl_in_expr' in jc.known) else None, dict(w, args=None, kind='parse'),
+                           label + ':parse', 'printed method cannot be parsed (%s)' % e)
             continue
         jc.reached('programs')
         jc.reached(flavour)
@@ -218,8 +221,10 @@ def job(jc, spec):
 def finding_for(msg):
     """recorded findings are identified by the reason javac gives"""
     import re
-    if re.search(r'possible lossy conversion from int to (byte|short|char)', msg):
+    if re.search(r'possible lossy conversion from (int|char|short|byte) to (byte|short|char)', msg):
         return 'c21_narrow_decl'
+    if "'.class' expected" in msg or "',', ')', or '[' expected" in msg:
+        return 'c21_decl_in_expr'
     if 'cannot find symbol' in msg or 'might not have been initialized' in msg or 'already defined' in msg:
         return 'c21_decl_scope'
     if 'missing return statement' in msg:
